@@ -499,6 +499,7 @@ type Contract struct {
 	Extern   bool // contract on a function/interface of a dependency (key = full name)
 	AimReq, AimEns, AimClaims []Clause // clauses tagged with the aimcheck property: only used in aim mode
 	AimInvs map[string][]Clause
+	MustCall []Clause // aim mode: functions (name suffixes) that are called on every path that reaches a return
 	NoWrite []Clause // call-graph frame: fields (pkg.Type.field) of objects it did not allocate that the function never writes
 	AimAlso []Clause // other State objects (never touched by CheckTx) that may be used directly
 	AimExempt []string // store types (pkg.Type) whose aim is not the deliver state by design
@@ -623,7 +624,7 @@ func ParseContractFile(path, pkg string) (*ContractFile, error) {
 		body := strings.TrimPrefix(t, "//@")
 		lines = append(lines, ln{body, i + 1})
 	}
-	keywords := []string{"theorem", "opaque-arith", "nowrite", "aimalso", "aimexempt", "aimcheck", "assumes", "exports", "dyncalls", "claims", "grants", "forbids", "footprint", "iterator", "count", "update", "func", "assume", "interface", "method", "requires", "ensures", "modifies", "invariant", "safety", "ghost", "model", "repr", "axiom", "implements", "lemma", "yields", "property", "noinline", "const", "expands", "inline"}
+	keywords := []string{"mustcall", "theorem", "opaque-arith", "nowrite", "aimalso", "aimexempt", "aimcheck", "assumes", "exports", "dyncalls", "claims", "grants", "forbids", "footprint", "iterator", "count", "update", "func", "assume", "interface", "method", "requires", "ensures", "modifies", "invariant", "safety", "ghost", "model", "repr", "axiom", "implements", "lemma", "yields", "property", "noinline", "const", "expands", "inline"}
 	isKw := func(s string) bool {
 		f := strings.Fields(s)
 		if len(f) == 0 {
@@ -790,6 +791,12 @@ func ParseContractFile(path, pkg string) (*ContractFile, error) {
 				return nil, fail(l, err)
 			}
 			cur.AimCheck = &Clause{Tag: tag, Expr: e, Src: es}
+		case "mustcall":
+			if cur == nil {
+				return nil, fail(l, fmt.Errorf("mustcall outside func"))
+			}
+			es, tag := splitTag(rest)
+			cur.MustCall = append(cur.MustCall, Clause{Tag: tag, Src: es})
 		case "nowrite":
 			if cur == nil {
 				return nil, fail(l, fmt.Errorf("nowrite outside func"))
